@@ -549,6 +549,9 @@ class Weaver:
             return t.text, 0
         if t.text == "self" and getattr(self, "_self_rename", False):
             return "self_", 0
+        if t.text == "Self" and unit is not None and getattr(unit, "assoc", None) and toks[i + 1].text == "::" and toks[i + 2].text in unit.assoc:
+            fired("R21:assoc-type")
+            return expand(unit.assoc[toks[i + 2].text], ctx), 2
         prev = toks[i - 1]
         nxt = toks[i + 1]
         if t.text in subst and not (prev.kind == "p" and prev.text in (".", "::")):
